@@ -818,6 +818,17 @@ func genExprCase(r *kit.Rand, i int) []string {
 			src = "* " + kit.Pick(r, binOps) + " " + src
 		}
 	}
+	if i%12 == 7 || i%12 == 2 {
+		// line breaks at random places: layout (MultiLine) is judged by the spec only (stability, meaning)
+		b := []byte(src)
+		for k := range b {
+			if b[k] == ' ' && r.Chance(1, 4) {
+				b[k] = '\n'
+			}
+		}
+		src = string(b)
+		return append([]string{"parse " + kit.Esc(src)}, "fmt", "reparse", "fmt", "reparse", "fmt", "reparse", "fmt")
+	}
 	ops := []string{"parse " + kit.Esc(src)}
 	if i%2 == 1 {
 		ops = append(ops, "json")
